@@ -62,6 +62,41 @@ impl Prop for C23 {
     }
 
     fn gen(&self, rng: &mut Rng, n: usize, _tier: Tier, out: &mut Vec<String>) {
+        // (1) small-scope exhaustive part: small limits, every keep-alive / lifetime / queue request
+        // around every comparison, every special double through every path
+        out.push(format!("reset {} {} 1 2 7 3", ff(100.0), ff(100.0)));
+        for ka in 0..5u64 {
+            for life in 0..10u64 {
+                out.push(format!("rev {} {} {}", ff(100.0), ka, life));
+            }
+        }
+        let specials = [0.0, -0.0, f64::NAN, f64::from_bits(0xfff8_0000_0000_0001), f64::INFINITY, f64::NEG_INFINITY, -1.0, -5e-324, 5e-324,
+            f64::from_bits(100.0f64.to_bits() - 1), 100.0, f64::from_bits(100.0f64.to_bits() + 1), 1e300];
+        for path in ["samp", "item", "mitem", "moditem", "mmitem"] {
+            out.push(format!("reset {} {} 1 2 7 3", ff(100.0), ff(100.0)));
+            for x in specials {
+                for q in 0..6u64 {
+                    if path == "samp" {
+                        if q == 0 {
+                            out.push(format!("samp {}", ff(x)));
+                        }
+                        continue;
+                    }
+                    if q < 2 || x == 100.0 {
+                        out.push(format!("{} {} {}", path, ff(x), q));
+                    }
+                }
+            }
+            for q in 0..6u64 {
+                out.push(format!("queue {}", q));
+            }
+        }
+        out.push(format!("reset {} {} 1 2 7 3", ff(100.0), ff(100.0)));
+        for (i, x) in specials.iter().enumerate() {
+            let op = if i % 4 == 0 { "create" } else { "modify" };
+            out.push(format!("{} {} {} {}", op, ff(*x), i % 5, (i * 3) % 10));
+        }
+        // (2) random part
         for _ in 0..n {
             // limits: mostly sane (as the server sets them), sometimes not
             let sane = !rng.chance(1, 6);
@@ -74,7 +109,7 @@ impl Prop for C23 {
             out.push(format!("reset {} {} {} {} {} {}", ff(min_pub), ff(min_samp), def_ka, max_ka, max_life, max_q));
             let mut creates = 0;
             for _ in 0..rng.range(8, 30) {
-                match rng.weighted(&[6, 2, 2, 6, 3, 2, 2]) {
+                match rng.weighted(&[6, 2, 2, 6, 3, 2, 2, 2, 2]) {
                     k @ (0 | 1 | 2) => {
                         let i = gen_f64(rng, min_pub);
                         let ka = gen_u32(rng, &[max_ka, def_ka]);
@@ -94,7 +129,9 @@ impl Prop for C23 {
                     3 => out.push(format!("samp {}", ff(gen_f64(rng, min_samp)))),
                     4 => out.push(format!("queue {}", gen_u32(rng, &[max_q]))),
                     5 => out.push(format!("item {} {}", ff(gen_f64(rng, min_samp)), gen_u32(rng, &[max_q]))),
-                    _ => out.push(format!("mitem {} {}", ff(gen_f64(rng, min_samp)), gen_u32(rng, &[max_q]))),
+                    6 => out.push(format!("mitem {} {}", ff(gen_f64(rng, min_samp)), gen_u32(rng, &[max_q]))),
+                    7 => out.push(format!("moditem {} {}", ff(gen_f64(rng, min_samp)), gen_u32(rng, &[max_q]))),
+                    _ => out.push(format!("mmitem {} {}", ff(gen_f64(rng, min_samp)), gen_u32(rng, &[max_q]))),
                 }
             }
         }
@@ -351,6 +388,44 @@ impl Runner for R {
                     VMonitoredItem::sanitize_queue_size(&ss, n as usize)
                 };
                 (format!("ok {}", q), self.check_queue(q as u64))
+            }
+            [op @ ("moditem" | "mmitem"), x, n] => {
+                // the MODIFY paths: MonitoredItem::modify and Subscription::modify_monitored_items
+                let x = pf(x);
+                let n: u64 = n.parse().unwrap();
+                let now = chrono::Utc::now();
+                let ss = fx.server_state.read();
+                let asp = fx.address_space.read();
+                let create = item_request(-1.0, 1);
+                let modify = MonitoredItemModifyRequest {
+                    monitored_item_id: 1,
+                    requested_parameters: MonitoringParameters {
+                        client_handle: 1,
+                        sampling_interval: x,
+                        filter: ExtensionObject::null(),
+                        queue_size: n as u32,
+                        discard_oldest: true,
+                    },
+                };
+                let (s, q) = if *op == "moditem" {
+                    let mut it = VMonitoredItem::new(&now, 1, TimestampsToReturn::Both, &ss, &create).expect("item");
+                    if let Err(e) = it.modify(&ss, &asp, TimestampsToReturn::Both, &modify) {
+                        return (format!("err {}", e), Verdict::fail("service_ok", "moditem", "modify failed"));
+                    }
+                    (it.sampling_interval(), it.queue_size() as u64)
+                } else {
+                    let mut sub = Subscription::new(Arc::new(RwLock::new(ServerDiagnostics::default())), 1, true, 1000.0, 30, 10, 0);
+                    let r = sub.create_monitored_items(&ss, &asp, &now, TimestampsToReturn::Both, &[create]);
+                    let mut modify = modify;
+                    modify.monitored_item_id = r[0].monitored_item_id;
+                    let r = sub.modify_monitored_items(&ss, &asp, TimestampsToReturn::Both, &[modify]);
+                    if !r[0].status_code.is_good() {
+                        return (format!("err {}", r[0].status_code), Verdict::fail("service_ok", "mmitem", "modify_monitored_items failed"));
+                    }
+                    (r[0].revised_sampling_interval, r[0].revised_queue_size as u64)
+                };
+                let v = Self::first(self.check_samp(x, s), self.check_queue(q));
+                (format!("ok {} {}", ff(s), q), v)
             }
             [op @ ("item" | "mitem"), x, n] => {
                 let x = pf(x);
